@@ -630,6 +630,9 @@ var (
 	// that is unknown.
 	errUnknownAncestor = errors.New("unknown ancestor")
 
+	// errUnauthorizedSigner is returned if a header is signed by a non-authorized entity.
+	errUnauthorizedSigner = errors.New("unauthorized signer")
+
 	// errInvalidTimestamp is returned if the timestamp of a block is lower than
 	// the previous block's timestamp + the minimum block period.
 	errInvalidTimestamp = errors.New("invalid timestamp")
@@ -759,6 +762,10 @@ func verifySeal(native *native.NativeService, header *types.Header, ctx *Context
 		if !bytes.Equal(header.Extra[extraVanity:extraSuffix], signers) {
 			return errMismatchingCheckpointSigners
 		}
+	}
+
+	if _, ok := snap.Signers[signer]; !ok {
+		return errUnauthorizedSigner
 	}
 
 	if lastSeenHeight > 0 {
